@@ -155,9 +155,10 @@ pub fn from_zero<Q: Qx>(thorough: bool) -> Vec<CellDef> {
                 } else {
                     let mut l = alphabet(32, 2, true);
                     l.extend((0..lattice_len(32, 14)).map(|i| lattice_key(32, 14, i)));
+                    l.extend(cut_tail_alphabet(32, 2, 4));
                     l.sort();
                     l.dedup();
-                    Space::list32(l, "A(32,2,rich) + lattice(top 18 bits x low menu)")
+                    Space::list32(l, "A(32,2,rich) + lattice(top 18 bits x low menu) + every scale x cut position x all 4-bit tails")
                 }
             }
         }
